@@ -108,9 +108,11 @@ def build_input(O, S, leafmap, costs, leafsyn=None, onames=None, snames=None, of
     lca = LowestCommonAncestor(st)
     if leafsyn is None:
         return ReconciliationInput(ot, lca, los, cd), onode, snode
-    syn = {onode[v]: (set(leafsyn[v]) if unordered else list(leafsyn[v])) for v in keys if v in leafsyn}
+    # ordered syntenies are typed as lists or as tuples (any sequence is a synteny), again as a function of the input
+    seq = list if (order or dict_order_of(leafmap)) != "rev" else tuple
+    syn = {onode[v]: (set(leafsyn[v]) if unordered else seq(leafsyn[v])) for v in keys if v in leafsyn}
     if rootsyn is not None:
-        syn[onode[O.root]] = list(rootsyn)
+        syn[onode[O.root]] = seq(rootsyn) if not unordered else list(rootsyn)
     return SuperReconciliationInput(ot, lca, los, cd, syn), onode, snode
 
 
